@@ -209,6 +209,13 @@ class PeptidePoolSummarizer():
             parsers.add(parser)
         return parsers
 
+    def has_internal_source(self, source:str) -> bool:
+        """ Whether the source, or any member of the source group, is internal
+        (novel ORF, sec termination, or codon reassignment), i.e., not tied to
+        any parser and thus not exclusive with any other source. """
+        group_map = self.get_reversed_group_map()
+        return any(s in SOURCES_INTERNAL for s in group_map.get(source, [source]))
+
     def append_order_internal_sources(self):
         """ Add internal sources that are not present in any GTFs, including
         novel ORF, sec termination, and codon reassignment. """
@@ -275,12 +282,12 @@ class PeptidePoolSummarizer():
 
         for source in sources:
             parsers = self.get_parsers_from_source(source)
-            if not parsers:
+            if not parsers or self.has_internal_source(source):
                 continue
 
             for other in sources:
                 other_parsers = self.get_parsers_from_source(other)
-                if not other_parsers:
+                if not other_parsers or self.has_internal_source(other):
                     continue
                 is_exclusive = True
                 for x in parsers:
